@@ -67,7 +67,7 @@ def plan(tier, seed):
         ar = (s % 4 == 3)
         specs.append(dict(kind='random', seed=seed * 1000 + s,
                           cfgs=cfgs_ar if ar else cfgs, autoref=ar,
-                          examples=1200 if tier == 'thorough' else 200,
+                          examples=1200 if tier == 'thorough' else 350,
                           min_len=8, max_len=40))
     return specs
 
